@@ -81,6 +81,14 @@ var decPreludes = func() []decPrelude {
 		out = append(out, decPrelude{"json", p, "literalsweep", -1})
 	}
 	out = append(out, decPrelude{"swjson", "p2", "literalsweep", -1})
+	// every one- and (a slice of the) two-byte inputs; every message behind tags of every width
+	out = append(out, decPrelude{"cbor", "p2", "tinysweep", -1})
+	for _, k := range []string{"cose", "cbor", "shapecbor"} {
+		out = append(out, decPrelude{k, "p2", "tagsweep", -1})
+	}
+	out = append(out, decPrelude{"cose", "p1", "tagsweep", -1})
+	// a sub-module chain of every depth the CBOR decoder admits
+	out = append(out, decPrelude{"shapecbor", "p2", "depthsweep", 9}, decPrelude{"shapejson", "p2", "depthsweep", 9})
 	for sh := 0; sh < nShapes; sh++ {
 		out = append(out, decPrelude{"shapejson", "p2", "literalsweep", sh})
 	}
@@ -917,6 +925,118 @@ func (decWorld) Exec(prop string, t *Trace) *Result {
 			res.Faults["net.truncate"] += len(s.cur)
 			res.Probes["truncsweep_offsets"] += len(s.cur)
 			shape += "truncsweep" + s.kind
+		case "tinysweep":
+			if journal {
+				fmt.Fprintf(os.Stderr, "AT %d\n", i)
+			}
+			n := 0
+			for b0 := 0; b0 < 256; b0++ {
+				if receive(res, prop, i, []byte{byte(b0)}, st, bud) {
+					nontrivial++
+				}
+				n++
+				// two-byte inputs: all of them in the thorough tier (stride 1); in the quick tier those
+				// whose first byte announces a following argument, an indefinite length, or JSON
+				info := b0 & 0x1f
+				if op.B > 1 && !(info >= 24 || b0 == '{' || b0 == '[' || b0 == '"' || b0 == ' ') {
+					continue
+				}
+				for b1 := 0; b1 < 256; b1++ {
+					if receive(res, prop, i, []byte{byte(b0), byte(b1)}, st, bud) {
+						nontrivial++
+					}
+					n++
+				}
+				if journal {
+					fmt.Fprintf(os.Stderr, "AT %d\n", i)
+				}
+			}
+			res.Faults["net.truncate"] += n
+			res.Probes["tinysweep_inputs"] += n
+			shape += "tinysweep"
+		case "tagsweep":
+			s := slots[op.T]
+			if s == nil || isJSONKind(s.kind) {
+				break
+			}
+			if journal {
+				fmt.Fprintf(os.Stderr, "AT %d\n", i)
+			}
+			n := 0
+			body := s.cur
+			untagged := body
+			if h, err := readHead(body, 0); err == nil && h.Major == 6 {
+				untagged = body[h.HLen:]
+			}
+			for _, tag := range []uint64{0, 1, 2, 3, 4, 5, 16, 17, 18, 21, 22, 23, 24, 32, 33, 34, 35, 36, 61, 96, 97, 98, 111, 255, 256, 55799, 65535, 65536, 1 << 32, 1<<64 - 1} {
+				for _, w := range []int{0, 1, 2, 4, 8} {
+					var hd []byte
+					if w == 0 {
+						hd = encodeHead(6, tag)
+					} else {
+						if (w == 1 && tag > 0xff) || (w == 2 && tag > 0xffff) || (w == 4 && tag > 0xffffffff) {
+							continue
+						}
+						hd = encodeHeadW(6, tag, w)
+					}
+					for _, inner := range [][]byte{body, untagged} {
+						msg := append(append([]byte{}, hd...), inner...)
+						if receive(res, prop, i, msg, st, bud) {
+							nontrivial++
+						}
+						n++
+						// ... and cut right after the tag head, and one byte into it
+						if receive(res, prop, i, msg[:len(hd)], st, bud) {
+							nontrivial++
+						}
+						if len(hd) > 1 {
+							receive(res, prop, i, msg[:len(hd)-1], st, bud)
+						}
+					}
+				}
+				if journal {
+					fmt.Fprintf(os.Stderr, "AT %d\n", i)
+				}
+			}
+			res.Faults["net.hdr"] += n
+			res.Probes["tagsweep_messages"] += n
+			shape += "tagsweep" + s.kind
+		case "depthsweep":
+			s := slots[op.T]
+			if s == nil {
+				break
+			}
+			n := 0
+			for depth := 1; depth <= 34; depth++ {
+				if journal {
+					fmt.Fprintf(os.Stderr, "AT %d\n", i)
+				}
+				var msg []byte
+				var err error
+				sh := filledShape(9, int64(depth-1), "t", nil)
+				if depth > 30 {
+					// deeper than the builder goes: written by hand, {9: {9: ... {1: 0}}}
+					if isJSONKind(s.kind) {
+						msg = []byte(strings.Repeat(`{"sub":`, depth-1) + `{"a":0}` + strings.Repeat("}", depth-1))
+					} else {
+						msg = append(bytes.Repeat([]byte{0xa1, 0x09}, depth-1), 0xa1, 0x01, 0x00)
+					}
+				} else if isJSONKind(s.kind) {
+					msg, err = encoding.SerializeStructToJSON(sh)
+				} else {
+					msg, err = encoding.SerializeStructToCBOR(xem, sh)
+				}
+				if err != nil {
+					continue
+				}
+				if receive(res, prop, i, msg, st, bud) {
+					nontrivial++
+				}
+				n++
+			}
+			res.Faults["net.nest"] += n
+			res.Probes["depthsweep_messages"] += n
+			shape += "depthsweep" + s.kind
 		case "literalsweep":
 			s := slots[op.T]
 			if s == nil || !isJSONKind(s.kind) {
